@@ -445,6 +445,7 @@ func suite(tier string) []qx.SuiteItem {
 	hbF := []string{"err:27", "err:22", "err:25", "drop"}
 	scs := []*scn{
 		{name: "two-generations-heartbeat-faults", gens: 2, faults: map[protocol.ApiKey][]string{protocol.Heartbeat: hbF}, bound: b},
+		{name: "heartbeat-other-error-codes", gens: 2, faults: map[protocol.ApiKey][]string{protocol.Heartbeat: {"err:16", "err:15", "err:14", "err:7", "err:30"}}, bound: b},
 		{name: "early-function-exit", gens: 2, earlyFn: true, faults: map[protocol.ApiKey][]string{protocol.Heartbeat: {"err:27"}}, bound: b},
 		{name: "join-sync-faults", gens: 1, faults: map[protocol.ApiKey][]string{protocol.JoinGroup: {"err:15", "err:25", "drop"}, protocol.SyncGroup: {"err:27", "err:22", "drop"}, protocol.OffsetFetch: {"err:15", "drop"}, protocol.FindCoordinator: {"err:15"}, protocol.LeaveGroup: {"drop", "err:25"}}, bound: b},
 		{name: "partition-watcher", gens: 2, watch: true, faults: map[protocol.ApiKey][]string{protocol.Metadata: {"err:5", "drop"}, protocol.Heartbeat: {"err:27"}}, bound: b},
